@@ -77,6 +77,12 @@ def run(ctx):
             for t in q.atom_edge(cfg, br[0], True):
                 region |= cfg.reach_from(t, avoid=erv) | {t}
             nodes = [cfg.V[v].node for v in region if cfg.V[v].node is not None]
+            # the probe condition may live in a member predicate of the same class (ftha_hit(key)): include the nodes of its body
+            for n_ in list(nodes):
+                if n_.is_call and n_.callee_qp and n_.callee_qp.startswith('FIX8::presorted_set::') and n_.callee_qp != f.qp:
+                    for h in prog.fns(n_.callee_qp):
+                        if h.rec == f.rec:
+                            nodes += list(h.all_nodes())
             bound = any(n.k == 'BinaryOperator' and n.op == '<' and any(x.k == 'MemberExpr' and x.decl['n'] == '_sz' and
                         any(y.k == 'MemberExpr' and y.decl['n'] == '_ftha' for y in x.walk()) for x in n.children[1].walk()) for n in nodes)
             same = any(n.k == 'BinaryOperator' and n.op == '==' and any(x.k == 'MemberExpr' and x.decl['n'] == '_fnum' and
